@@ -823,6 +823,58 @@ example : let s := ((fresh 10 none).addLink "a" "b" |>.addLink "b" "c" |>.addCon
 example : let s := ((fresh 1 none).addLink "a" "b")
     (s.condHasLink "a" "b" "").2 = true ∧ (s.hasLink "a" "b").2 = false := by decide
 
+/-! ### a reload keeps the registered conditions (`ConditionalRoleManager.clear` after its repair) -/
+
+theorem condClear_inv (s : RM) : Inv s.condClear := by
+  refine ⟨by simp [RM.condClear], ?_, ?_, ?_⟩ <;> simp [RM.condClear, EStar]
+
+@[simp] theorem condClear_condFns (s : RM) : s.condClear.condFns = s.condFns := rfl
+@[simp] theorem condClear_edges (s : RM) : s.condClear.edges = [] := rfl
+@[simp] theorem condClear_allLinks (s : RM) : s.condClear.allLinks = [] := rfl
+@[simp] theorem addLink_condFns (s : RM) (a b : Name) : (s.addLink a b).condFns = s.condFns := by
+  simp [RM.addLink]
+@[simp] theorem setCondParams_condFns (s : RM) (a b d : Name) (ps : List String) :
+    (s.setCondParams a b d ps).condFns = s.condFns := by
+  simp [RM.setCondParams]
+
+theorem lookup_assocSet_self {κ β} [BEq κ] [LawfulBEq κ] (k : κ) (v : β) (l : List (κ × β)) :
+    (assocSet k v l).lookup k = some v := by
+  induction l with
+  | nil => simp [assocSet]
+  | cons e rest ih =>
+    obtain ⟨k', v'⟩ := e
+    by_cases h : k' = k
+    · subst h; simp [assocSet]
+    · have h1 : (k' == k) = false := by simpa using h
+      have h2 : (k == k') = false := by simpa using fun e : k = k' => h e.symm
+      simp [assocSet, List.lookup, h1, h2, ih]
+
+/-- **reload_keeps_conditions.** Whatever the state, after `clear` - the first step of every reload, rebuild and
+    rollback - an assignment that is built again with parameters `ps` is followed exactly when the function that
+    was registered for it BEFORE the clear returns true on `ps`: a reload cannot turn a conditional assignment
+    into an unconditional one. (Before the repair `clear` emptied `condFns` and the right-hand side was `true`.) -/
+theorem reload_keeps_conditions (s : RM) (a b d : Name) (ps : List String) (fn : CondFn)
+    (h : s.condFns.lookup (a, b, d) = some fn) (t : RM) (ht : t.condFns = s.condClear.condFns) :
+    ((t.addLink a b).setCondParams a b d ps).passes d (a, b) = fn ps := by
+  unfold RM.passes
+  simp only [setCondParams_condFns, addLink_condFns, ht, condClear_condFns, h]
+  simp [RM.setCondParams, lookup_assocSet_self]
+
+/-- the conditions of all keys survive any number of rebuilt links: `clear` + any adds leave `condFns` as it was -/
+theorem condClear_foldl_addLink (s : RM) (ls : List Link) :
+    (ls.foldl (fun t l => t.addLink l.1 l.2) s.condClear).condFns = s.condFns := by
+  suffices ∀ t : RM, (ls.foldl (fun t l => t.addLink l.1 l.2) t).condFns = t.condFns from by
+    rw [this]; rfl
+  induction ls with
+  | nil => intro t; rfl
+  | cons l rest ih => intro t; simp [List.foldl, ih]
+
+example : let s := ((fresh 10 none).addLink "a" "b" |>.addCondFn "a" "b" "" (fun ps => ps.head? == some "T")
+                      |>.setCondParams "a" "b" "" ["F"])
+    (s.condHasLink "a" "b" "").2 = false ∧
+    (((s.condClear.addLink "a" "b").setCondParams "a" "b" "" ["F"]).condHasLink "a" "b" "").2 = false ∧
+    (((s.condClear.addLink "a" "b").setCondParams "a" "b" "" ["T"]).condHasLink "a" "b" "").2 = true := by decide
+
 /-! ## DomainManager: per-domain stores, lazily built caches -/
 
 section assoc
